@@ -928,26 +928,30 @@ class Case final : public sim::CaseBase {
         car = std::move(f);
       } break;
       case Src::RunT:
-        car = yaclib::Run<E>(Exec(p.src_exec), [this, id] {
+        car = yaclib::Run<E>(Exec(p.src_exec), [this, id, cap = T{7777}] {
           LogInvoke(-1, Outcome{});
+          (void)cap.Read("source functor capture");
           return SourceValue(id, prog.src_out);
         });
         break;
       case Src::RunVoid:
-        car = yaclib::Run<E>(Exec(p.src_exec), [this, id] {
+        car = yaclib::Run<E>(Exec(p.src_exec), [this, id, cap = T{7777}] {
           LogInvoke(-1, Outcome{});
+          (void)cap.Read("source functor capture");
           (void)SourceValue(id, prog.src_out);
         });
         break;
       case Src::RunInline:
-        car = yaclib::Run<E>([this, id] {
+        car = yaclib::Run<E>([this, id, cap = T{7777}] {
           LogInvoke(-1, Outcome{});
+          (void)cap.Read("source functor capture");
           return SourceValue(id, prog.src_out);
         });
         break;
       case Src::RunAsync:
-        car = yaclib::Run<E>(Exec(p.src_exec), [this, id] {
+        car = yaclib::Run<E>(Exec(p.src_exec), [this, id, cap = T{7777}] {
           LogInvoke(-1, Outcome{});
+          (void)cap.Read("source functor capture");
           if (prog.src_out == SrcOut::Exception) {
             throw sim::TaggedEx{id};
           }
@@ -969,78 +973,90 @@ class Case final : public sim::CaseBase {
       case Src::TaskError: car = yaclib::MakeTask<T, E>(E{id}); break;
       case Src::TaskVoid: car = yaclib::MakeTask<Unit, E>(); break;
       case Src::ScheduleT:
-        car = yaclib::Schedule<E>(Exec(p.src_exec), [this, id] {
+        car = yaclib::Schedule<E>(Exec(p.src_exec), [this, id, cap = T{7777}] {
           LogInvoke(-1, Outcome{});
+          (void)cap.Read("source functor capture");
           return SourceValue(id, prog.src_out);
         });
         break;
       case Src::ScheduleInline:
-        car = yaclib::Schedule<E>([this, id] {
+        car = yaclib::Schedule<E>([this, id, cap = T{7777}] {
           LogInvoke(-1, Outcome{});
+          (void)cap.Read("source functor capture");
           return SourceValue(id, prog.src_out);
         });
         break;
       case Src::ScheduleVoid:
-        car = yaclib::Schedule<E>(Exec(p.src_exec), [this, id] {
+        car = yaclib::Schedule<E>(Exec(p.src_exec), [this, id, cap = T{7777}] {
           LogInvoke(-1, Outcome{});
+          (void)cap.Read("source functor capture");
           (void)SourceValue(id, prog.src_out);
         });
         break;
       case Src::LazyContractNow:
         if (p.src_out == SrcOut::SetThrowsVal) {
-          car = yaclib::LazyContract<T, E>([this](yaclib::Promise<T, E> pr) {
+          car = yaclib::LazyContract<T, E>([this, cap = T{7777}](yaclib::Promise<T, E> pr) {
             LogInvoke(-1, Outcome{});
+          (void)cap.Read("source functor capture");
             SetInsideVal(std::move(pr));
           });
         } else {
-          car = yaclib::LazyContract<T, E>([this](yaclib::Promise<T, E>&& pr) {
+          car = yaclib::LazyContract<T, E>([this, cap = T{7777}](yaclib::Promise<T, E>&& pr) {
             LogInvoke(-1, Outcome{});
+          (void)cap.Read("source functor capture");
             SetInsideRef(std::move(pr));
           });
         }
         break;
       case Src::LazyContractOn:
         if (p.src_out == SrcOut::SetThrowsVal) {
-          car = yaclib::LazyContract<T, E>(Exec(p.src_exec), [this](yaclib::Promise<T, E> pr) {
+          car = yaclib::LazyContract<T, E>(Exec(p.src_exec), [this, cap = T{7777}](yaclib::Promise<T, E> pr) {
             LogInvoke(-1, Outcome{});
+          (void)cap.Read("source functor capture");
             SetInsideVal(std::move(pr));
           });
         } else {
-          car = yaclib::LazyContract<T, E>(Exec(p.src_exec), [this](yaclib::Promise<T, E>&& pr) {
+          car = yaclib::LazyContract<T, E>(Exec(p.src_exec), [this, cap = T{7777}](yaclib::Promise<T, E>&& pr) {
             LogInvoke(-1, Outcome{});
+          (void)cap.Read("source functor capture");
             SetInsideRef(std::move(pr));
           });
         }
         break;
       case Src::AsyncContractNow:
         if (p.src_out == SrcOut::SetThrowsVal) {
-          car = yaclib::AsyncContract<T, E>(Exec(p.src_exec), [this](yaclib::Promise<T, E> pr) {
+          car = yaclib::AsyncContract<T, E>(Exec(p.src_exec), [this, cap = T{7777}](yaclib::Promise<T, E> pr) {
             LogInvoke(-1, Outcome{});
+          (void)cap.Read("source functor capture");
             SetInsideVal(std::move(pr));
           });
         } else {
-          car = yaclib::AsyncContract<T, E>(Exec(p.src_exec), [this](yaclib::Promise<T, E>&& pr) {
+          car = yaclib::AsyncContract<T, E>(Exec(p.src_exec), [this, cap = T{7777}](yaclib::Promise<T, E>&& pr) {
             LogInvoke(-1, Outcome{});
+          (void)cap.Read("source functor capture");
             SetInsideRef(std::move(pr));
           });
         }
         break;
       case Src::AsyncContractInline:
         if (p.src_out == SrcOut::SetThrowsVal) {
-          car = yaclib::AsyncContract<T, E>([this](yaclib::Promise<T, E> pr) {
+          car = yaclib::AsyncContract<T, E>([this, cap = T{7777}](yaclib::Promise<T, E> pr) {
             LogInvoke(-1, Outcome{});
+          (void)cap.Read("source functor capture");
             SetInsideVal(std::move(pr));
           });
         } else {
-          car = yaclib::AsyncContract<T, E>([this](yaclib::Promise<T, E>&& pr) {
+          car = yaclib::AsyncContract<T, E>([this, cap = T{7777}](yaclib::Promise<T, E>&& pr) {
             LogInvoke(-1, Outcome{});
+          (void)cap.Read("source functor capture");
             SetInsideRef(std::move(pr));
           });
         }
         break;
       case Src::AsyncContractLater:
-        car = yaclib::AsyncContract<T, E>(Exec(p.src_exec), [this](yaclib::Promise<T, E> pr) {
+        car = yaclib::AsyncContract<T, E>(Exec(p.src_exec), [this, cap = T{7777}](yaclib::Promise<T, E> pr) {
           LogInvoke(-1, Outcome{});
+          (void)cap.Read("source functor capture");
           Later([this, pp = std::move(pr)]() mutable {
             sim::Yield();
             SetPromise(std::move(pp));
@@ -1048,8 +1064,9 @@ class Case final : public sim::CaseBase {
         });
         break;
       case Src::LazyContractLater:
-        car = yaclib::LazyContract<T, E>([this](yaclib::Promise<T, E> pr) {
+        car = yaclib::LazyContract<T, E>([this, cap = T{7777}](yaclib::Promise<T, E> pr) {
           LogInvoke(-1, Outcome{});
+          (void)cap.Read("source functor capture");
           Later([this, pp = std::move(pr)]() mutable {
             sim::Yield();
             SetPromise(std::move(pp));
